@@ -400,7 +400,10 @@ func panicOrigin(stack string) string {
 		if strings.HasPrefix(lines[i], "panic(") || strings.HasPrefix(lines[i], "runtime.panic") || strings.HasPrefix(lines[i], "runtime.goPanic") || strings.HasPrefix(lines[i], "runtime.sigpanic") {
 			// skip runtime frames
 			j := i + 2
-			for j < len(lines) && strings.HasPrefix(lines[j], "runtime.") {
+			// ... and the channel primitives that stand in for the caller's own
+			// channel statements: "send on closed channel" and the like are
+			// raised by the code that wrote the statement
+			for j < len(lines) && (strings.HasPrefix(lines[j], "runtime.") || (j+1 < len(lines) && strings.Contains(lines[j+1], "/sim/simrt/chan.go:"))) {
 				j += 2
 			}
 			if j < len(lines) {
